@@ -1,16 +1,22 @@
 """C10 -- decoding is independent of fragmentation; streamed payloads arrive intact."""
 import gen_codec3 as G3
 import gen_codec5 as G5
+import gen_payload as GP
 from props import codec_common as cc
+from props.base import Part
 
 RULE = ("streams of valid packets delivered under many cut sets (every single cut, byte-at-a-time, random sets) "
         "and min_chunk settings; for each stream the item sequence with payload pieces glued together must be "
         "the same for every fragmentation (checked by comparing with the whole-stream delivery), pieces add up "
         "to the declared size with exactly one final piece; non-trivial = a stream with a PUBLISH whose "
         "payload was delivered in more than one piece")
-ASSUMPTIONS = ["connection level (handler reads the payload through ntex-util bstream) is not covered by this check"]
-PARTIAL = ["connection-level clause (reader pace, max payload buffer) is not modelled: ntex-util bstream"]
+ASSUMPTIONS = ["connection level: Payload over ntex-util's bstream channel is modelled (Model/Payload.v) for the "
+               "reader side; the sender-side back-pressure (max payload buffer -> dispatcher pauses reading) is "
+               "observed only through the NEED_READ flag, PayloadSender exposes no poll_ready to compare"]
+PARTIAL = ["sender-side readiness of bstream (how the dispatcher is paused when the payload buffer is full) is "
+           "not compared with the implementation"]
 USES_GEN = False
+PROPS_FILES = ["C10", "C10pl"]
 
 
 class FragMixin:
@@ -90,16 +96,116 @@ def regroup(cases):
     return groups
 
 
+class PlPart(Part):
+    """engine payload (41): Payload::read / read_all over the bstream channel, any feed / poll schedule"""
+    has_oracle = False
+    project_is_identity = True
+    SHRINK_FIELDS_FIRST = True
+    SHRINK_FIELDS_ONLY = True
+    NO_SHRINK_FIELDS = (0,)
+
+    def py_oracle(self, case, obs):
+        """spec level, independent of the model: whatever the handler holds is a prefix of the bytes sent; a
+        reader that finished Ok after the dispatcher's eof (nothing fed afterwards) holds all of them"""
+        if obs in ("9999",):
+            return "0,21"
+        if obs in ("9998", "9997"):
+            return "1"
+        f = case.split(";")
+        try:
+            mode, _, first = (int(x) for x in f[0].split(","))
+        except ValueError:
+            return "1"
+        ops = f[1:]
+        fs = [o.split(",") for o in obs.split(";")]
+        if len(fs) != len(ops):
+            return "1"
+        sent, ctr = [], 0
+        for _ in range(min(first, 4096)):
+            sent.append(ctr % 256)
+            ctr += 1
+        eof = False
+        fed_after_eof = False
+        err = False
+        took = False
+        for i, (o, w) in enumerate(zip(ops, fs)):
+            if o.startswith("1,"):
+                n = min(int(o.split(",")[1]), 4096)
+                if mode <= 1:
+                    for _ in range(n):
+                        sent.append(ctr % 256)
+                        ctr += 1
+                    fed_after_eof = fed_after_eof or eof
+            elif o == "2":
+                eof = True
+            elif o == "3":
+                err = True
+            elif o == "5":
+                took = True
+            try:
+                status, held = int(w[0]), [int(x) for x in w[4:]]
+            except (ValueError, IndexError):
+                return "1"
+            if mode in (1, 3) and status != 1:
+                held = []
+            if held != sent[:len(held)]:
+                return "0,22,%d" % i
+            if status == 1 and mode <= 1 and not fed_after_eof and not err and not took and held != sent:
+                return "0,23,%d" % i
+            if status == 1 and mode <= 1 and not eof:
+                return "0,24,%d" % i
+        return "1"
+
+    def nontrivial(self, case, obs):
+        # streamed, >= 2 chunks, the reader suspended at least once, finished Ok
+        if obs in ("9999", "9998", "9997"):
+            return False
+        f = case.split(";")
+        mode, _, first = (int(x) for x in f[0].split(","))
+        ops = f[1:]
+        fs = [o.split(",") for o in obs.split(";")]
+        if mode > 1 or fs[-1][0] != "1":
+            return False
+        chunks = (1 if first else 0) + sum(1 for o in ops if o.startswith("1,"))
+        prev, pend = "0", False
+        for o, w in zip(ops, fs):
+            if o == "4" and w[0] == "0" and w[3] == prev:
+                pend = True
+            prev = w[3]
+        return chunks >= 2 and pend
+
+    def classify(self, case, obs):
+        if obs in ("9999", "9998", "9997"):
+            return "panic/err"
+        return {"0": "running", "1": "finished-ok", "2": "err-disconnected", "3": "err-consumed"}.get(
+            obs.split(";")[-1].split(",")[0], "other")
+
+    def readable(self, case):
+        return {"config(mode,buf_size,first_len)": case.split(";")[0], "ops": case.split(";")[1:]}
+
+
+PL_CORPUS = ["1,8,2;1,1;1,2;2;4", "1,8,2;4;1,1;4;1,2;2;4", "0,0,0;4;1,1;4;1,2;1,1;4;2;4;4", "0,8,1;1,1;3;4;4;4",
+             "1,100,0;2;4", "3,0,3;5;4"]
+
+
 def parts(tier, rng):
     n3 = cc.sized(tier, 60, 600)
     n5 = cc.sized(tier, 25, 250)
     p3 = F3("v3-fragmentations", "dec3", G3.gen_dec_valid(rng, n3) + G3.gen_dec_payload(rng, n3),
             rule="valid streams x cut sets x min_chunk")
     p5 = F5("v5-fragmentations", "dec5", G5.dec5_valid(rng, n5 * 10), rule="valid streams x cut sets x min_chunk")
-    return [p3, p5]
+    res = [p3, p5]
+    first = True
+    for name, cases in GP.all_cases(rng, "quick" if tier == "quick" else "full"):
+        res.append(PlPart("payload-" + name, "payload", (PL_CORPUS if first else []) + cases, shards=16,
+                          rule="Payload::read()/read_all() under feed / eof / error / poll / take schedules: " + name))
+        first = False
+    return res
 
 
 def replay_parts(rp):
+    if rp.get("engine") == "payload":
+        return [PlPart("replay", "payload", [rp["case"]], shards=1)]
     cls = {"dec3": F3, "dec5": F5}[rp.get("engine", "dec3")]
     return [cls("replay", rp["engine"], [rp["case"]], has_oracle=False)]
 
@@ -110,6 +216,12 @@ def known_signature(part, case, impl_obs, oracle):
 
 cc.DEC_CLAUSES["11"] = ("the packets (payload pieces glued) obtained from this fragmentation differ from those of "
                         "another fragmentation of the same byte stream")
+
+
+cc.DEC_CLAUSES["21"] = "panic while reading the payload"
+cc.DEC_CLAUSES["22"] = "the handler holds bytes that are not a prefix of the payload bytes sent (lost, duplicated or reordered)"
+cc.DEC_CLAUSES["23"] = "the reader finished Ok after the final chunk but does not hold every byte of the payload"
+cc.DEC_CLAUSES["24"] = "the reader finished Ok before the final chunk was fed"
 
 
 def clause_text(part, oracle):
